@@ -199,7 +199,14 @@ def run(tier):
     rep.add_jobs(results)
     for r in results:
         for fobj in r["failed"]:
-            rep.spurious.append({"job": r["name"], "obligation": fobj["desc"], "model": fobj.get("model")})
+            hit = None
+            if r["name"].startswith("local:"):
+                for c in local_cases_from_model(r["name"], fobj.get("model") or {}):
+                    try: w = replay(c)
+                    except Exception as e: w = None
+                    if w: hit = (c, w); break
+            if hit: rep.violation("local:" + json.dumps(hit[0], sort_keys=True), hit[1] + "  [%s: %s]" % (r["name"], fobj["desc"]), hit[0])
+            else: rep.spurious.append({"job": r["name"], "obligation": fobj["desc"], "model": fobj.get("model")})
     rep.bounds = ["$TZ unset or of length %s (every byte value except NUL), $LOCALTIME unset or 3 symbolic bytes" % [x for x in tzl if x is not None],
                   "zone names of length %s, $TZDIR unset / empty / 3 symbolic bytes; fopen succeeds or fails freely" % nl,
                   "name-cache scenarios: sequences of 1-3 loads over {valid, invalid, UTC, UTC0, fixed-offset}"]
@@ -209,6 +216,45 @@ def run(tier):
                        "load_time_zone is a recording stub inside local:* ; its own behaviour is cache:*"]
     return rep.finish("Bounded by string lengths; within them all byte values are covered by SMT-decided path exploration.")
 
-def replay(case): return None
+_exe = {}
+def _replay_exe():
+    import subprocess
+    if "p" in _exe: return _exe["p"]
+    V = common.VERIF; R = build.REPO + "/src/"
+    out = os.path.join(build.workdir(), "c19_replay")
+    srcs = [R + f for f in ("time_zone_if.cc", "time_zone_fixed.cc", "time_zone_posix.cc", "time_zone_libc.cc", "time_zone_info.cc", "zone_info_source.cc",
+                            "civil_time_detail.cc", "time_zone_impl.cc", "time_zone_lookup.cc", "time_zone_format.cc")]
+    r = subprocess.run(["g++", "-std=c++17", "-O1", "-I" + build.REPO + "/include", "-I" + build.REPO + "/src", os.path.join(V, "replay", "c19_replay.cc")] + srcs + ["-o", out, "-lpthread"], capture_output=True, text=True)
+    if r.returncode != 0: raise RuntimeError("replay build failed: " + r.stderr[-1200:])
+    _exe["p"] = out
+    return out
+
+def expected_local_name(tz, lt):
+    """the documented rule, on concrete strings (None = unset)"""
+    z = tz if tz is not None else ":localtime"
+    if z.startswith(":"): z = z[1:]
+    if z == "localtime": z = lt if lt is not None else "/etc/localtime"
+    return z
+
+def replay(case):
+    """case: {"TZ": str|None, "LOCALTIME": str|None}; LOCALTIME given as a real zone file so that the outcome is observable"""
+    import subprocess
+    tz = case.get("TZ"); lt = case.get("LOCALTIME")
+    want = expected_local_name(tz, lt)
+    env = dict(os.environ); env["TZDIR"] = build.REPO + "/testdata/zoneinfo"
+    p = subprocess.run([_replay_exe(), "-" if tz is None else tz, "-" if lt is None else lt, want], capture_output=True, text=True, env=env, timeout=30)
+    if p.returncode == 1: return "TZ=%r LOCALTIME=%r: %s" % (tz, lt, p.stdout.strip())
+    return None
+
+def local_cases_from_model(job, m):
+    """concrete environments to try for a failed local:* obligation: the model's TZ bytes, with LOCALTIME pointing at a real file"""
+    tzlen = job.split("TZ=")[1].split(",")[0]; ltlen = job.split("LOCALTIME=")[1]
+    real = build.REPO + "/testdata/zoneinfo/America/New_York"
+    tz = None if tzlen == "None" else "".join(chr(m.get("TZ_%d" % i, 65) & 255) for i in range(int(tzlen)))
+    lts = [None, real] if ltlen == "None" else [real, None]
+    out = [{"TZ": tz, "LOCALTIME": lt} for lt in lts]
+    for extra in ("", ":", ":localtime", "localtime", "::localtime", ":America/New_York", "America/New_York"):
+        out.append({"TZ": extra, "LOCALTIME": real})
+    return out
 if __name__ == "__main__":
     sys.exit(run(sys.argv[1] if len(sys.argv) > 1 else "quick"))
